@@ -24,7 +24,7 @@ from .core import EventLog, digest_of, fbits, violation
 
 EPS = float(np.finfo(float).eps)
 FIXED_SOLVERS = ("euler", "runge-kutta", "implicit", "crank-nicolson", "adams-bashforth")
-ADAPTIVE_SOLVERS = ("euler", "runge-kutta")
+ADAPTIVE_SOLVERS = ("euler", "runge-kutta", "scipy")
 READONLY_KINDS = ("rec", "rec1", "data", "storage", "print", "progress", "consistency", "walltime", "material",
                   "steady", "maxruntime")
 
